@@ -72,10 +72,14 @@ def check_rename(p, name, c0, old, new):
                     "print(bad); sys.exit(1 if bad else 0)\n")
 
 
-def check_replace_inputs(p, name, c0, to_true, to_false):
+def check_replace_inputs(p, name, c0, to_true, to_false, live=False):
+    """live: the lists handed over are the circuit's own `inputs` list object when they name all inputs (the
+    property returns the list itself, so `c.replace_inputs(c.inputs, [])` is what a caller writes)."""
     c = mutators.rebuild(c0)
     try:
-        c.replace_inputs(list(to_true), list(to_false))
+        t = c.inputs if live and list(to_true) == list(c.inputs) else list(to_true)
+        f = c.inputs if live and list(to_false) == list(c.inputs) else list(to_false)
+        c.replace_inputs(t, f)
     except DOCUMENTED:
         p.count("rejected")
         return
@@ -96,8 +100,9 @@ def check_replace_inputs(p, name, c0, to_true, to_false):
         if r == "sat":
             probs.append("result is not the cofactor")
     if probs:
-        p.violation(f"replace_inputs:{probs[0].split(' ')[0]}", f"replace_inputs({to_true},{to_false}) on {circ.describe(c0)}: {probs[:3]}",
-                    head(c0) + f"T={list(to_true)!r}; F={list(to_false)!r}\nc.replace_inputs(T,F)\nbad=circ.wf_problems(c)\n"
+        p.violation(f"replace_inputs:{probs[0].split(' ')[0]}{':own-list' if live else ''}", f"replace_inputs({to_true},{to_false}){' (the circuit own inputs list passed)' if live else ''} on {circ.describe(c0)}: {probs[:3]}",
+                    head(c0) + f"T={list(to_true)!r}; F={list(to_false)!r}\nlive={live!r}\n"
+                    "c.replace_inputs(c.inputs if live and T==list(c.inputs) else list(T), c.inputs if live and F==list(c.inputs) else list(F))\nbad=circ.wf_problems(c)\n"
                     "if list(c.inputs)!=[i for i in o.inputs if i not in T+F]: bad.append('inputs')\n"
                     "if not bad:\n"
                     "    for x in itertools.product((False,True), repeat=len(c.inputs)):\n"
@@ -248,6 +253,8 @@ def unit(p, item, tier, seed):
             a = rnd.randint(0, len(ins))
             b = rnd.randint(a, len(ins))
             check_replace_inputs(p, name, c0, ins[:a], ins[a:b])
+        check_replace_inputs(p, name, c0, list(c0.inputs), [], live=True)
+        check_replace_inputs(p, name, c0, [], list(c0.inputs), live=True)
         for k in range(6 if tier == "quick" else 15):
             call = mutators.random_call(rnd, c0, step=k, kinds=["replace_subcircuit"])
             if call is None:
